@@ -98,6 +98,7 @@ type Exec struct {
 	boundBig     bool
 	substMemo    map[*Term]*Term
 	noMerge      bool
+	stubJSON     bool
 	addrs        map[*value][]value
 	addrVars     [][]*Term
 	poolReuse    int
